@@ -140,10 +140,6 @@ func (st *ccState) checkTrySequences(v *vio, c *ccCall, timing bool) {
 	}
 	hs := st.handovers(c)
 	lb := c.invSeq
-	firstTx := 1 << 30
-	if ts := c.tries(); len(ts) > 0 {
-		firstTx = ts[0].tx.seq
-	}
 	for _, tr := range c.tries() {
 		var A, W []*rxRec
 		for _, r := range st.rx {
@@ -155,9 +151,11 @@ func (st *ccState) checkTrySequences(v *vio, c *ccCall, timing bool) {
 			// of the call ("arrived while that call was waiting"), and a client that keeps one
 			// registration for the whole call hands such a datagram over after the next
 			// retransmission, where the unchanged tree (one registration per try) drops it.
-			// Both are within the statement; a datagram from before the call's first
-			// transmission is not (beyond what the receive loop still had in hand).
-			case r.seq < tr.tx.seq && (r.doneSeq == 0 || r.doneSeq >= lb || r.seq > firstTx):
+			// Both are within the statement; a datagram from before the call was invoked is not
+			// (beyond what the receive loop still had in hand). (Invoked, not "first transmitted":
+			// a client that registers once at the start of the call is waiting from then on, and a
+			// stalled task can put a long time between the two.)
+			case r.seq < tr.tx.seq && (r.doneSeq == 0 || r.doneSeq >= lb || r.seq > c.invSeq):
 				A = append(A, r)
 			case r.seq > tr.tx.seq && r.seq < tr.endSeq:
 				W = append(W, r)
